@@ -22,18 +22,26 @@ ASSUMPTIONS = COMMON_ASSUMPTIONS + ["exact-arithmetic PSD preservation (Lean/Mat
 TRUSTED_BASE = TRUSTED
 
 
-def native(shape, seed, control_none=False):
-    return kalman.native_predict(shape, seed, control_none)
+def native(shape, seed, control_none=False, container="set"):
+    return kalman.native_predict(shape, seed, control_none, container=container)
 
 
 def check(run):
     cs = pyekf.filter_callees()
     for c in (pyekf.ProcessModel(False), pyekf.ProcessModel(True)):
         rep = run.verify(c, cs)
-        triage_generic(run, rep, lambda shape, seed: native((shape[0], shape[1], shape[2]), seed, c.control_none), "process_model")
+        triage_generic(run, rep, lambda shape, seed, container="set": native((shape[0], shape[1], shape[2]), seed, c.control_none, container=container), "process_model")
+    from checks import C03
+
+    for c in (pyekf.JacobianContract("process_jacobian"), pyekf.JacobianContract("control_jacobian")):
+        rep = run.verify(c, cs)
+        C03.triage(run, rep)
+    for c in (pyekf.ModelModel(False), pyekf.ModelModel(True)):
+        rep = run.verify(c, cs)
+        triage_generic(run, rep, lambda shape, seed, container="set": native((shape[0], shape[1], shape[2]), seed, container=container), "Model.model")
     for c in noise_contracts("C04"):
         rep = run.verify(c, pyekf.construct_callees())
-        triage_generic(run, rep, lambda shape, seed: native((shape[0], shape[1], max(shape[2], 2)), seed), "_construct_process")
+        triage_generic(run, rep, lambda shape, seed, container="set": native((shape[0], shape[1], max(shape[2], 2)), seed, container=container), "_construct_process")
     if run.tier == "thorough" or any(r.status != "ok" for r in run.reports) or run.undecided:
         shapes = [(2, 0, 1), (3, 1, 2), (1, 0, 0), (3, 2, 3), (4, 0, 2)] if run.tier == "thorough" else [(3, 1, 2), (2, 0, 1)]
         fails = 0
